@@ -160,6 +160,26 @@ def num_binop(E, op, a, b, ka, kb):
     if op in ("+", "-", "*"):
         if conc:
             return {"+": a + b, "-": a - b, "*": a * b}[op]
+        if op == "+" and ka == "i" and kb == "i":
+            # carry-free addition of bit-view integers (x << k) + small: stays in the bit domain
+            a_ok = (isinstance(a, int) and a >= 0) or (isinstance(a, SInt) and a.cells is not None and a._term is None)
+            b_ok = (isinstance(b, int) and b >= 0) or (isinstance(b, SInt) and b.cells is not None and b._term is None)
+            if a_ok and b_ok and (isinstance(a, SInt) or isinstance(b, SInt)):
+                ca, cb = int_cells(a), int_cells(b)
+                w = max(len(ca), len(cb))
+                ca = [0] * (w - len(ca)) + ca
+                cb = [0] * (w - len(cb)) + cb
+                out = []
+                for x, y in zip(ca, cb):
+                    if isinstance(x, int) and x == 0:
+                        out.append(y)
+                    elif isinstance(y, int) and y == 0:
+                        out.append(x)
+                    else:
+                        out = None
+                        break
+                if out is not None:
+                    return int_from_cells(out)
         if ka == "i" and kb == "i":
             ta, _ = to_z3_num(a)
             tb, _ = to_z3_num(b)
@@ -359,6 +379,12 @@ def format_one(E, v, conv, flags="", width=None, prec=None):
         if isinstance(v, int):
             return ("%" + flags + (str(width) if width else "") + conv) % v
         cells = int_cells(v)
+        if cells is None and isinstance(v, SInt) and v.hi is not None:
+            # the interval bound does not know the path condition: ask the solver
+            if E.decide(v.term < 0):
+                raise Unsupported("%X of a negative symbolic int")
+            v = SInt(v.term, None, 0, v.hi)
+            cells = int_cells(v)
         if cells is None:
             raise Unsupported("%X of possibly negative symbolic int")
         upper = conv == "X"
